@@ -161,8 +161,11 @@ prop("C05", lambda tier: [e1("c05", "harness/c05_cond.c")],
      "x all schedules with <= K deviations on W workers")
 prop("C06", lambda tier: [e1("c06", "harness/c06_barrier.c")],
      "N in 1..3 participants x 1..3 rounds x main participating or not x all schedules with <= K deviations on W workers")
-prop("C07", lambda tier: [e1("c07", "harness/c07_joincounter.c")],
-     "all creation orders of <=3 decrementers and <=2 waiters (22 orders) + a late wait by main x all schedules with <= K deviations on W workers")
+prop("C07", lambda tier: [e1("c07", "harness/c07_joincounter.c"),
+                          binc("c07b", "engine/build_unit.sh c07b harness/c07_bits.c", "build/c07b/c07b --stats {stats} --tier quick", "build/c07b/c07b --stats {stats} --tier thorough",
+                               "E3 seqmc (bounded exhaustive boundary inputs, one process per case)")],
+     "E1: all creation orders of <=3 decrementers and <=2 waiters (22 orders) + a late wait by main x all schedules with <= K deviations on W workers; "
+     "E3: N in 0..9, 2^k-1, 2^k, 2^k+1 for k=4..30, INT_MAX-1, INT_MAX x 0..2 waiters (large N: state word preset to N-2 decrements, flagged accelerated)")
 prop("C08", lambda tier: [e1("c08", "harness/c08_uncond.c")],
      "single-slot SPSC hand-off of 1..3 items following the documented announce/CAS protocol, either side created first, x all schedules with <= K deviations")
 prop("C09", lambda tier: [e1("c09", "harness/c09_felock.c")],
@@ -227,3 +230,8 @@ prop("C15", lambda tier: [
      assumptions=["reference recogniser for the grammar range(,range)*, range ::= a | a-b | a-b:c, numbers of <=6 digits compared exactly (longer literals: no crash / no hang only)",
                   "an explicit myth_init_ex installs its attributes as the global attributes, which later implicit initialisations use (the library's documented global-attribute semantics)",
                   "well-formed but unusable requests (1..32767-byte default stacks, more than 64 workers) are excluded as the property says"] + E1_ASSUME)
+
+prop("C17", lambda tier: [e1("c17", "harness/c17_bulk.c"), e1("c17m", "harness/c17_mtbb.cc", harness_flags="-I" + REPO + "/src -fpermissive")],
+     "C: n in 0..4/7 x {many, various} x NULL-ness of results/ids/attrs x {packed, 2x stride, struct-embedded} with guard words around every slot; "
+     "C++: task_group with 0..10/12 run() calls + second batch, parallel_for(first,last[,step[,grain]]) for all first,last in -2..4/5, step 1..3, grain 1..3; "
+     "each x all schedules with <= K deviations on 1-2 workers; reference = the sequential loop")
